@@ -301,6 +301,7 @@ func (r *runner) report(id string, hs []*harnessRun, t0 time.Time, noReplay bool
 				"cross_checked_with":               crossSolvers,
 				"cross_check_queries":              crossAsked,
 				"cross_check_disagreements":        crossDisagree,
+				"paths_rerun_after_solver_timeout": r.retriedPaths,
 			},
 			"solver":                 "z3 4.8.12 (z3 -in, incremental, 60 s cap per query)",
 			"solver_time_s":          r.solverStats.time.Seconds(),
